@@ -36,9 +36,10 @@ DigitVal(ch) == IF ch \in DigitChars THEN DigitMap[ch] ELSE -1
 RECURSIVE PN(_, _, _, _)
 PN(cs, i, base, acc) ==
     IF i > Len(cs) THEN acc
-    ELSE LET dv == DigitVal(cs[i]) IN IF dv < 0 \/ dv >= base \/ acc > 50000000 THEN -1 ELSE PN(cs, i + 1, base, acc * base + dv)
+    ELSE LET dv == DigitVal(cs[i]) IN IF dv < 0 \/ dv >= base \/ acc > 5000000 THEN -1 ELSE PN(cs, i + 1, base, acc * base + dv)
 \* value of a digit string in the base; -1 when empty, when a character is not a digit of the base, or when the number
-\* is beyond TLC's integers (>= 1.8e9: no buffer of the harness is that long, so such a text is false anyway)
+\* is too large for TLC's 32-bit integers (every number up to 5e6 is read in every base; no buffer of the harness is
+\* that long, so a longer text is false anyway)
 ParseNat(cs, base) == IF Len(cs) = 0 THEN -1 ELSE PN(cs, 1, base, 0)
 
 \* documented prefixes: 0b, 0o, 0x; none for the other bases
